@@ -19,4 +19,4 @@ CONSTANTS
   Pls <- PlsAll
   ReqAuths <- ReqAuthsAll
   RespMuts <- RespMutsAll
-INVARIANTS MacSound AuthReplyVerifies ReplyAddressing ForwardRule
+INVARIANTS MacSound
